@@ -255,6 +255,15 @@ func registerZZ(P *Program) {
 		it.pathNotes = append(it.pathNotes, fmt.Sprint(a[0]))
 		return nil
 	})
+	obs := func(it *Interp, a []Value) Value {
+		if it.R.TraceBudget > 0 || true {
+			it.observe(tagOf(a[0]), a[1])
+		}
+		return nil
+	}
+	for _, n := range []string{"ObserveInt64", "ObserveUint64", "ObserveBool", "ObserveInt", "ObserveDec", "ObserveCoins", "ObserveBig"} {
+		P.reg("zzverif."+n, obs)
+	}
 	P.reg("zzverif.Covered", func(it *Interp, a []Value) Value {
 		// record that the named real function is part of the encoded surface of this harness
 		it.R.addFunc(a[0].(string), "")
